@@ -542,7 +542,12 @@ pub fn process<I: BufRead, O: Write>(
                     })?;
                     debug!("expr: {:?}", expr);
 
-                    let caps = context.define_regex.captures(expr).unwrap();
+                    let caps = context.define_regex.captures(expr).ok_or_else(|| Error::Syntax {
+                        filename: filename.clone(),
+                        included_in: included_in.clone(),
+                        line,
+                        msg: "Expected macro name after `#define`".to_string(),
+                    })?;
                     debug!("caps: {:?}", caps);
                     let mcro = &caps[1];
                     if context.get_macro(mcro).is_some() {
